@@ -12,7 +12,8 @@ _T = "SE.Proofs.C01."
 _THEOREM_NAMES = ["C01_roundtrip_general", "C01_save_total", "C01_roundtrip", "C01_roundtrip_dir", "C01_relocate",
                   "C01_fixpoint", "C01_fixpoint_dir", "C01_same_type_save", "C01_same_type_load", "C01_same_type",
                   "C01_type_dispatch", "C01_wf_of_wfB", "C01_wfB_iff", "C01_load_gate_iff", "C01_load_gate_not_found",
-                  "C01_load_file_type"]
+                  "C01_load_file_type", "C01_roundtrip_dir_relative", "C01_fixpoint_dir_dot", "C01_cycles_dir_outside",
+                  "C01_fixpoint_dir_iff"]
 THEOREMS = [_T + n for n in _THEOREM_NAMES]
 LEVEL_TEXT = ("Lean theorems over an executable model of all 26 AOEF adapter modules (data classes, document classes, "
               "save = first-wins tables over the post-order traversal, single-pass loader with lenient / strict "
